@@ -9,6 +9,7 @@ import (
 	"strings"
 	"sync"
 	"testing"
+	"time"
 
 	"golang.org/x/xerrors"
 	"vfkit"
@@ -21,6 +22,9 @@ type vfC14Case struct {
 	Mechs  []string `json:"mechs"` // nil = no <mechanisms/> element at all
 	NoMech bool     `json:"nomech"`
 	Reply  string   `json:"reply"` // success | failure:<cond> | stream-error | stanza | close | challenge
+	// Prior: the judged negotiation is the client's second one - after a first session on which the server offered
+	// exactly the credential's mechanism and accepted it, and which was then lost (Client.Resume reuses the session)
+	Prior bool `json:"prior,omitempty"`
 }
 
 var vfSaslConds = []string{"not-authorized", "aborted", "account-disabled", "credentials-expired", "invalid-authzid", "temporary-auth-failure", "mechanism-too-weak", "vf-unknown-condition"}
@@ -38,7 +42,14 @@ func vfC14Run(run *vfkit.Run, cs *vfC14Case) {
 	}
 	var authElems []vfElem
 	var mu sync.Mutex
+	release := make(chan struct{})
 	peer := vfNewPeer(func(pc *vfPeerConn) {
+		if cs.Prior && pc.N == 0 {
+			pc.Negotiate(&vfNeg{Mechs: []string{credMech}, Bind: true, ExpectPresence: true})
+			<-release
+			pc.Close()
+			return
+		}
 		if _, err := pc.Expect("stream"); err != nil {
 			return
 		}
@@ -101,12 +112,35 @@ func vfC14Run(run *vfkit.Run, cs *vfC14Case) {
 		run.Count("jid_rejected_by_newclient", 1)
 		return
 	}
-	cerr := c.Connect()
+	var cerr error
+	if cs.Prior {
+		obs := &vfObs{}
+		c.SetHandler(obs.onEvent)
+		if err := c.Connect(); err != nil {
+			close(release)
+			run.Inconclusive("prior-session-failed")
+			return
+		}
+		close(release)
+		if !vfWaitUntil(10*time.Second, func() bool { return obs.CountState(StateDisconnected) >= 1 }) {
+			run.Inconclusive("prior-session-not-lost")
+			go c.Disconnect()
+			return
+		}
+		cerr = c.Resume()
+		run.Count("second_negotiations_judged", 1)
+	} else {
+		close(release)
+		cerr = c.Connect()
+	}
 	go c.Disconnect()
 	mu.Lock()
 	auths := append([]vfElem(nil), authElems...)
 	mu.Unlock()
 	tag := credMech
+	if cs.Prior {
+		tag += ":second-negotiation"
+	}
 	permanent := func(e error) bool {
 		var ce ConnError
 		return xerrors.As(e, &ce) && ce.Permanent
@@ -242,11 +276,41 @@ func TestVf_C14(t *testing.T) {
 				default:
 					cs.Reply = "close"
 				}
+				cs.Prior = r.Intn(4) == 0
 				run.Case(cs)
 				if c < 3 {
 					run.Sample(cs)
 				}
 				vfC14Run(run, cs)
+			}
+		}(wk)
+	}
+	wg.Wait()
+	// every payload length: secrets of 0..L bytes with an 8-byte local part, local parts of 1..U bytes with a 7-byte
+	// secret (a fast path with a fixed-size buffer is wrong at one length only)
+	L, U := vfkit.Pick(600, 5000), vfkit.Pick(260, 1000)
+	type lenCase struct{ u, s int }
+	var lens []lenCase
+	for l := 0; l <= L; l++ {
+		lens = append(lens, lenCase{8, l})
+	}
+	for u := 1; u <= U; u++ {
+		lens = append(lens, lenCase{u, 7})
+	}
+	for wk := 0; wk < workers; wk++ {
+		wg.Add(1)
+		go func(wk int) {
+			defer wg.Done()
+			for c := wk; c < len(lens) && !run.Enough(); c += workers {
+				lc := lens[c]
+				cs := &vfC14Case{Local: strings.Repeat("u", lc.u), Secret: strings.Repeat("s", lc.s), Token: c%2 == 1, Reply: "success"}
+				cs.Mechs = []string{"PLAIN"}
+				if cs.Token {
+					cs.Mechs = []string{"X-OAUTH2"}
+				}
+				run.CaseQuiet()
+				vfC14Run(run, cs)
+				run.Count("payload_lengths_swept", 1)
 			}
 		}(wk)
 	}
